@@ -13,6 +13,12 @@ mod c17_distance;
 mod c18_onehot;
 #[cfg(kani)]
 mod c15_metrics;
+#[cfg(kani)]
+mod c03_move;
+#[cfg(kani)]
+mod c03_arith;
+#[cfg(kani)]
+mod c03_special;
 
 #[cfg(kani)]
 mod playback_slot;
